@@ -98,6 +98,12 @@ func (w *W) Begin(idx int, input []byte, desc string) {
 	h := ""
 	if len(input) <= 1<<16 {
 		h = hex.EncodeToString(input)
+	} else {
+		// too long to announce on the pipe: park it in a file the supervisor can pick up if this process dies on it
+		fn := filepath.Join(verifHome(), "bin", fmt.Sprintf("cur-%s-%d.in", w.Prop, w.Shard))
+		if os.WriteFile(fn, input, 0o644) == nil {
+			h = "@file:" + fn
+		}
 	}
 	fmt.Fprintf(w.out, "B\t%d\t%s\t%s\n", idx, desc, h)
 	w.out.Flush()
@@ -457,6 +463,16 @@ func superviseMain(args map[string]string) {
 				}
 				// the worker died (fatal runtime error, OOM kill) or stopped responding on case lastIdx
 				inp, _ := hex.DecodeString(lastHex)
+				if strings.HasPrefix(lastHex, "@file:") {
+					// a long input: keep it next to the replay file
+					src := strings.TrimPrefix(lastHex, "@file:")
+					_ = os.MkdirAll(verifHome()+"/replays", 0o755)
+					dst := filepath.Join(verifHome(), "replays", fmt.Sprintf("%s-crash-input-idx%d.in", prop, lastIdx))
+					if b, err := os.ReadFile(src); err == nil && os.WriteFile(dst, b, 0o644) == nil {
+						inp = []byte(fmt.Sprintf("<%d bytes, %s: stored in %s; first bytes %q>", len(b), lastDesc, dst, trunc(string(b), 60)))
+						lastHex = "@file:" + dst
+					}
+				}
 				kind, key := "crash", "crash@"+firstLine(errb.String())
 				if timedOut {
 					kind, key = "timeout", "timeout-without-hook"
